@@ -107,6 +107,19 @@ CHECKS = {
         note="Trusted: z3; symx; SHA-256/AES/HMAC uninterpreted; RSA key import real (concrete DER); random nondeterministic; "
         "lark Tree real / tokens with symbolic text. Longer histories follow by induction from state preservation (stated).",
         ref="§4 C14"),
+    "C19": dict(
+        text="For every requested beacon id in [-2^40, 2^40] the client either raises ValueError or presents an even id in [0, 2^31) "
+        "(ids in range are only rounded down) and carries it in the metadata; two clients with symbolic ids and equal presented ids get "
+        "equal aes_rand/AES/HMAC keys (= halves of SHA-256(aes_rand), the keys handed to the decoder) whichever arguments are left to "
+        "random defaults; every sleep interval lies in [sleeptime - sleeptime*jitter/100, sleeptime] for all u32 sleeptimes and jitters "
+        "0..100 — decided over the rationals, not IEEE-754; metadata built from names with 3 (4) symbolic code points anywhere in "
+        "Unicode around the 51-byte limit fits the configured RSA key; for every registry built from decorator / register_task / "
+        "on_<command> / catch-all / on_catch_all / empty-task handlers and every sequence of <=2/3 tasks with symbolic commands, each "
+        "task invokes exactly the registered handlers (catch-all only when none), each once, and each handler response is sent once.",
+        note="Trusted: z3 (QF_BV; LRA for the sleep band); symx; random as nondeterministic draws that are a function of (seed, draw "
+        "number) after seed(); SHA-256 uninterpreted; PKCS#1 length contract; get_task/send_callback/time replaced by recorders in the "
+        "dispatch harness. Unknown command ids (BeaconCommand(x) raises ValueError inside the loop) are outside the claim.",
+        ref="§4 C19"),
 }
 
 NA = {}
